@@ -27,6 +27,8 @@ pub enum PanicClass {
     Oom,
     CapacityOverflow,
     SizeOverflow,
+    /// collections: "encountered allocation error" (infallible reserve whose allocation failed)
+    AllocError,
     /// a debug assertion / overflow check inside the crate (dbg profile)
     Assertion(String),
     /// harness-injected panic (callback fault)
@@ -50,6 +52,8 @@ pub fn classify_panic(p: &(dyn std::any::Any + Send)) -> PanicClass {
         PanicClass::CapacityOverflow
     } else if s.contains("requested allocation size overflowed") {
         PanicClass::SizeOverflow
+    } else if s.contains("encountered allocation error") {
+        PanicClass::AllocError
     } else if s.contains("assertion") || s.contains("overflow") || s.contains("should be") || s.contains("unsafe precondition") {
         PanicClass::Assertion(s.chars().take(120).collect())
     } else {
